@@ -107,6 +107,41 @@ func sprintfLike(format string, args []value) string {
 	return fmt.Sprintf(format, gs...)
 }
 
+// symSprintf: Sprintf with a symbolic format string.  Without any '%' (and
+// without operands) the result is the format itself; a format that contains
+// '%' is made concrete byte by byte (each choice is a path) and formatted
+// natively - an exact answer for that instance.
+func symSprintf(fr *frame, f *symStr, args []value) value {
+	ex := fr.ex()
+	ts := ex.ts
+	bs := strBytes(ts, f)
+	var pct []*Term
+	for _, b := range bs {
+		pct = append(pct, ts.Eq(b, ts.BV(8, '%')))
+	}
+	if !ex.branch(ts.Or(pct...)) {
+		if len(args) > 0 {
+			ex.unsupported("Sprintf: symbolic format without verbs but with operands")
+		}
+		return f
+	}
+	// (instances: every byte is '%', 'd' or 'x' - enough to tell "formatted" from "copied";
+	// other formats that contain '%' are cut, which the statistics record)
+	raw := make([]byte, len(bs))
+	for i, b := range bs {
+		alts := []byte{'%', 'd', 'x'}
+		conds := make([]*Term, len(alts))
+		for k, a := range alts {
+			conds[k] = ts.Eq(b, ts.BV(8, uint64(a)))
+		}
+		k := ex.choose(conds)
+		ex.assume(conds[k])
+		raw[i] = alts[k]
+	}
+	ex.stats.Covers["Sprintf: symbolic format with '%' explored over the letters % d x only"]++
+	return sprintfLike(string(raw), args)
+}
+
 func headerKey(fr *frame, v value) string {
 	return textproto.CanonicalMIMEHeaderKey(concStr(fr, v, "http.Header key"))
 }
@@ -353,6 +388,9 @@ func init() {
 		return nil
 	}
 	intrinsics["fmt.Sprintf"] = func(fr *frame, args []value) value {
+		if sf, ok := args[0].(*symStr); ok {
+			return symSprintf(fr, sf, args[1].([]value))
+		}
 		return sprintfLike(concStr(fr, args[0], "Sprintf format"), args[1].([]value))
 	}
 	intrinsics["fmt.Sprint"] = func(fr *frame, args []value) value {
